@@ -227,7 +227,29 @@ impl Prop for C08 {
             any::<[u8; 32]>(),
             any_kind(),
             any_time(),
-            prop::collection::vec(tag_strategy(3, maxlen), 0..5),
+            prop_oneof![
+                40 => prop::collection::vec(tag_strategy(3, maxlen), 0..5).boxed(),
+                // a contact list: hundreds of p tags (tag section 30-60 KB, its JSON text up to ~64 KB)
+                1 => (420usize..820, any::<u64>()).prop_map(|(n, salt)| {
+                    (0..n)
+                        .map(|i| {
+                            let mut b = [0u8; 32];
+                            b[..8].copy_from_slice(&(salt ^ (i as u64).wrapping_mul(0x9E37_79B9_7F4A_7C15)).to_le_bytes());
+                            b[24..].copy_from_slice(&(i as u64).to_be_bytes());
+                            vec!["p".to_string(), hex(&b)]
+                        })
+                        .collect::<Vec<_>>()
+                }).boxed(),
+                // few tags with very long strings
+                1 => (prop::collection::vec((9_000usize..28_000, rich_string(6)), 1..3)).prop_map(|v| {
+                    v.into_iter().map(|(n, seed)| {
+                        let unit = if seed.is_empty() { "ab".to_string() } else { seed };
+                        let mut s = String::new();
+                        while s.len() < n { s.push_str(&unit); }
+                        vec!["t".to_string(), s]
+                    }).collect::<Vec<_>>()
+                }).boxed(),
+            ],
             rich_string(maxlen),
             mutation_strategy(),
             plan_strategy(7, 1, 2),
